@@ -232,14 +232,14 @@ class C05(Engine):
                     idx += 1
         # CLI level: the same kind of damage through the real main()
         base_ids = self.bases()
-        n_cli = 300 if q else 6000
+        n_cli = 700 if q else 12000
         for i in range(n_cli):
             r = core.derive_rng("c05.cli", self.seed, i)
             b = base_ids[r.randrange(len(base_ids))]
             f = P.files[b]
             content = f["content"]
             cut = r.randrange(len(content) + 1)
-            opts = [[], ["--no-colors"], ["-f", "json"], ["-d"]][r.randrange(4)]
+            opts = [[], ["--no-colors"], ["-f", "json"], ["-d"], ["-dd"], ["-dd", "--no-colors"], ["-o", "-R", "CheckDefine"]][r.randrange(7)]
             sc = {"kind": "clifault", "fault": "cli_level", "desc": f"prefix_chr({cut})",
                   "files": {"x": {"name": f["name"], "base": b, "splices": [[cut, len(content), ""]], "fault_desc": f"prefix_chr({cut})"}},
                   "tree": {f["name"]: "@x"}, "ops": [{"op": "cli", "argv": opts + [f["name"]]}]}
